@@ -29,6 +29,7 @@ def main():
     ap.add_argument("--set", action="append", default=[])
     ap.add_argument("--remove-tagger", action="append", default=[])
     ap.add_argument("--label", default="")
+    ap.add_argument("--add-dumping", default=None, help="dumping interval: add a dumping tagger to the configuration")
     a = ap.parse_args()
     os.makedirs(a.workdir, exist_ok=True)
     os.chdir(a.workdir)
@@ -52,6 +53,10 @@ def main():
                     med = obj[0]
                     import jellyfysh.setting as setting
                     setting.__dict__.update(obj[1].__dict__)
+                    if os.path.exists(a.resume + ".rec.json"):
+                        rec.load_state(a.resume + ".rec.json")
+                        if a.legs:
+                            rec.max_legs = rec.legs + a.legs
                     rec.on_mediator_built(med)
                     return obj
                 resume.dill.load = load
@@ -76,6 +81,8 @@ def main():
                     if not cfg.has_section(sec):
                         cfg.add_section(sec)
                     cfg.set(sec, opt, val)
+                if a.add_dumping:
+                    add_dumping(cfg, a.add_dumping)
                 for tag in a.remove_tagger:
                     remove_tagger(cfg, tag)
                 for sec in cfg.sections():
@@ -101,6 +108,27 @@ def live_children():
         return len(multiprocessing.active_children())
     except Exception:
         return -1
+
+
+def add_dumping(cfg, interval):
+    """Add a fixed-interval dumping tagger (as in power_bounded_dump.ini) to a configuration that has none."""
+    if "dumping" in cfg.get("TagActivator", "taggers"):
+        cfg.set("FixedIntervalDumpingEventHandler", "dumping_interval", interval)
+        return
+    cfg.set("TagActivator", "taggers", cfg.get("TagActivator", "taggers").rstrip().rstrip(",") + ",\n    dumping (no_in_state_tagger)")
+    cfg.add_section("Dumping")
+    cfg.set("Dumping", "create", "dumping")
+    cfg.set("Dumping", "trash", "dumping")
+    cfg.set("Dumping", "event_handler", "fixed_interval_dumping_event_handler")
+    cfg.add_section("FixedIntervalDumpingEventHandler")
+    cfg.set("FixedIntervalDumpingEventHandler", "dumping_interval", interval)
+    cfg.set("FixedIntervalDumpingEventHandler", "output_handler", "dumping_output_handler")
+    cfg.add_section("DumpingOutputHandler")
+    cfg.set("DumpingOutputHandler", "filename", "dump.dat")
+    cfg.set("StartOfRun", "create", cfg.get("StartOfRun", "create").rstrip().rstrip(",") + ", dumping")
+    cfg.set("EndOfRun", "trash", cfg.get("EndOfRun", "trash").rstrip().rstrip(",") + ", dumping")
+    cfg.set("InputOutputHandler", "output_handlers",
+            cfg.get("InputOutputHandler", "output_handlers").rstrip().rstrip(",") + ", dumping_output_handler")
 
 
 def remove_tagger(cfg, tag):
